@@ -132,19 +132,107 @@ def call_sites_with_guards(program, target: FuncInfo):
     return out
 
 
-def all_ds_stores(program, func: FuncInfo, depth=2, seen=None):
-    """Keys stored into a grid's _ds by func or by repo functions it calls (bounded)."""
+UNKNOWN_KEY = "?"
+
+
+def _str_tuple(node):
+    if isinstance(node, (ast.Tuple, ast.List)) and node.elts and all(str_const(e) is not None for e in node.elts):
+        return tuple(str_const(e) for e in node.elts)
+    return None
+
+
+def computed_store_keys(func: FuncInfo, bindings=None):
+    """Keys of stores  <x>._ds[name] = ...  whose key is a local name: resolved when the name iterates (directly or through zip/enumerate) over a literal
+    tuple of strings, a local bound to one, or a parameter bound to one at the call site (bindings); UNKNOWN_KEY otherwise."""
+    bindings = bindings or {}
+    out = set()
+    fn = func.node
+    loops = {}   # loop target name -> iterable expression it draws from
+    for n in ast.walk(fn):
+        it = tg = None
+        if isinstance(n, (ast.For, ast.comprehension)):
+            it, tg = n.iter, n.target
+        if it is None:
+            continue
+        if isinstance(tg, ast.Name):
+            loops[tg.id] = it
+        elif isinstance(tg, ast.Tuple) and isinstance(it, ast.Call) and isinstance(it.func, ast.Name) and it.func.id == "zip":
+            for i, e in enumerate(tg.elts):
+                if isinstance(e, ast.Name) and i < len(it.args):
+                    loops[e.id] = it.args[i]
+    local = {}
+    for st in iter_stmts(fn.body):
+        if isinstance(st, ast.Assign) and len(st.targets) == 1 and isinstance(st.targets[0], ast.Name):
+            local.setdefault(st.targets[0].id, []).append(st.value)
+
+    def strings_of(e, depth=0):
+        t = _str_tuple(e)
+        if t is not None:
+            return set(t)
+        if isinstance(e, ast.Name) and depth < 3:
+            if e.id in bindings:
+                return set(bindings[e.id])
+            vs = local.get(e.id, [])
+            if len(vs) == 1:
+                return strings_of(vs[0], depth + 1)
+        if isinstance(e, ast.Call) and isinstance(e.func, ast.Attribute) and e.func.attr == "keys" and isinstance(e.func.value, ast.Dict) and all(str_const(k) is not None for k in e.func.value.keys):
+            return {str_const(k) for k in e.func.value.keys}
+        if isinstance(e, ast.Dict) and all(k is not None and str_const(k) is not None for k in e.keys):
+            return {str_const(k) for k in e.keys}
+        return None
+
+    for st in iter_stmts(fn.body):
+        if isinstance(st, ast.Assign) and len(st.targets) == 1 and isinstance(st.targets[0], ast.Subscript):
+            t = st.targets[0]
+            if isinstance(t.value, ast.Attribute) and t.value.attr == "_ds" and str_const(t.slice) is None:
+                ks = None
+                if isinstance(t.slice, ast.Name):
+                    nm = t.slice.id
+                    if nm in loops:
+                        ks = strings_of(loops[nm])
+                    elif nm in bindings and isinstance(bindings[nm], str):
+                        ks = {bindings[nm]}
+                    elif len(local.get(nm, [])) == 1 and str_const(local[nm][0]) is not None:
+                        ks = {str_const(local[nm][0])}
+                out |= ks if ks is not None else {UNKNOWN_KEY}
+    return out
+
+
+def _call_bindings(call, callee: FuncInfo):
+    """parameter -> literal tuple of strings / literal string, for the arguments of this call that are such literals"""
+    b = {}
+    params = callee.params()
+    for i, a in enumerate(call.args):
+        if i < len(params):
+            t = _str_tuple(a)
+            if t is not None:
+                b[params[i]] = t
+            elif str_const(a) is not None:
+                b[params[i]] = str_const(a)
+    for k in call.keywords:
+        if k.arg:
+            t = _str_tuple(k.value)
+            if t is not None:
+                b[k.arg] = t
+            elif str_const(k.value) is not None:
+                b[k.arg] = str_const(k.value)
+    return b
+
+
+def all_ds_stores(program, func: FuncInfo, depth=2, seen=None, bindings=None):
+    """Keys stored into a grid's _ds by func or by repo functions it calls (bounded).  UNKNOWN_KEY is a member when some store's key is computed
+    in a way this rule does not resolve."""
     seen = seen or set()
-    if func.key in seen:
+    if func.key in seen and not bindings:
         return set()
     seen.add(func.key)
-    keys = {k for k, *_ in stores_with_guards(func.node)}
+    keys = {k for k, *_ in stores_with_guards(func.node)} | computed_store_keys(func, bindings)
     if depth > 0:
         for n in ast.walk(func.node):
             if isinstance(n, ast.Call):
                 r = program.resolve_expr(func.module, n.func, func)
                 if isinstance(r, FuncInfo):
-                    keys |= all_ds_stores(program, r, depth - 1, seen)
+                    keys |= all_ds_stores(program, r, depth - 1, seen, _call_bindings(n, r))
     return keys
 
 
@@ -202,6 +290,8 @@ def check_getters(run, program, names, rule_prefix="F-LAZY"):
                 run.holds(f"{rule_prefix}/populate-stores", c, where(f, st), "absent variable raises (not constructible)", nontrivial=False)
             elif name in stored:
                 run.holds(f"{rule_prefix}/populate-stores", c, where(f, st), f'the guarded body stores _ds["{name}"]')
+            elif UNKNOWN_KEY in stored:
+                run.incomplete(f"{rule_prefix}/populate-stores", c, where(f, st), f'the guarded body of property {name} stores under a computed key this rule cannot resolve; _ds["{name}"] not seen among {sorted(stored)}')
             else:
                 run.violation(
                     f"{rule_prefix}/populate-stores", c, where(f, st),
